@@ -302,6 +302,32 @@ Theorem C16_forking_lts : forall outs sched s,
 Proof. exact fork_lts_facts. Qed.
 Print Assumptions C16_forking_lts.
 
+(* degenerate sizes, stated explicitly.  ONE server: Forking returns exactly that server's
+   outcome — a response, its error, or its panic recovered into a PanicError (never a raw
+   panic); the goroutine LTS agrees and invokes it once; Broadcast likewise. *)
+Theorem C16_forking_single_server : forall o, forking [o] [0%nat] = Some (result_of o).
+Proof. exact forking_single. Qed.
+Print Assumptions C16_forking_single_server.
+
+Theorem C16_forking_single_server_lts : forall o,
+  exists s, fork_lts [o] [0%nat; 0%nat] = Some s /\ all_done (pcs s) = true /\
+            invoked s = [0%nat] /\ f_done (sh s) = Some (result_of o).
+Proof. exact fork_lts_single. Qed.
+Print Assumptions C16_forking_single_server_lts.
+
+Theorem C16_broadcast_single_server : forall o,
+  bcast_run [o] [0%nat] =
+  {| b_slots := [slot_of o]; b_err := if is_ok o then None else Some (result_of o) |}.
+Proof. exact bcast_single. Qed.
+Print Assumptions C16_broadcast_single_server.
+
+(* one server under the retry configs: every attempt goes to it (all other theorems hold
+   for n = 1 and retry = 0 as they quantify over every n and every budget) *)
+Theorem C16_single_server_all_attempts_there : forall c ix cl,
+  ix_ok 1 ix -> Forall (fun u => u = 0) (attempts (handle c 1 ix cl)).
+Proof. exact handle_single_server. Qed.
+Print Assumptions C16_single_server_all_attempts_there.
+
 (* ------------------------------------------------------------------ *)
 (* Broadcast: every schedule of the goroutines *)
 
